@@ -7,6 +7,7 @@ From ZV.Det Require Import ResetModel ResetProofs CwkspClean CwkspProofs RowSalt
                            BlockState BlockStateProofs DictMode DictModeProofs
                            ApiState ApiStateProofs RawFallback RawFallbackProofs WindowContigProofs.
 From ZV.Det Require StableIn StableInProofs.
+From ZV.Det Require Import MtParams MtParamsProofs.
 Import ListNotations.
 Local Open Scope Z_scope.
 
@@ -357,3 +358,25 @@ Theorem stable_input_read_in_front_of_the_buffer_before_fix :
   snd (StableIn.step 131072 s1 (StableIn.mkC 100000 6000 1000 StableIn.DEnd)) = StableIn.Read 100000 106000.
 Proof. exact StableInProofs.stable_input_read_out_of_bounds_before_0548f83. Qed.
 Print Assumptions stable_input_read_in_front_of_the_buffer_before_fix.
+
+(* 44. multithreading, mid-frame parameter updates (ZSTD_CCtx_setParameter accepted while nbWorkers >= 1): for EVERY schedule and every
+   sequence of input calls and updates, the job-creation machine goes through the states of the same calls WITHOUT the updates - the
+   partition theorems 22-24 apply unchanged, a schedule can only change which parameters a section gets *)
+Theorem mt_param_updates_keep_the_partition : forall target ops s envs,
+  option_map p_mt (prun target s ops envs) = run_ops target (p_mt s) (erase ops) envs.
+Proof. exact param_updates_keep_the_partition. Qed.
+Print Assumptions mt_param_updates_keep_the_partition.
+
+(* 45. ... and it does (finding mt-jobtable-full-pending-section-gets-new-params, second symptom of mt-jobtable-full-last-job): one
+   complete section with e_continue, an update 0 -> 7, one more byte with e_end; the jobs table full during the first call only:
+   same job sizes, the first section gets the old parameters under one schedule and the new ones under the other.  A piece that
+   does not end on a section boundary is immune *)
+Theorem mt_param_update_depends_on_the_schedule :
+  (let ops := [PCall 4 e_continue; PSet 7; PCall 1 e_end] in
+   option_map tagged_sizes (prun 4 p_init ops (repeat free_env 6)) = Some [(4, 0); (1, 7)] /\
+   option_map tagged_sizes (prun 4 p_init ops (full_env :: repeat free_env 6)) = Some [(4, 7); (1, 7)]) /\
+  (let ops := [PCall 5 e_continue; PSet 7; PCall 1 e_end] in
+   option_map tagged_sizes (prun 4 p_init ops (repeat free_env 8)) = Some [(4, 0); (2, 7)] /\
+   option_map tagged_sizes (prun 4 p_init ops (full_env :: repeat free_env 8)) = Some [(4, 0); (2, 7)]).
+Proof. split; [exact mt_param_update_schedule_dependent | exact mt_param_update_unaligned_piece_immune]. Qed.
+Print Assumptions mt_param_update_depends_on_the_schedule.
